@@ -51,6 +51,17 @@ def has_bow(g):
     return any((a, b) in D or (b, a) in D for a, b in g["B"])
 
 
+KF_2CYCLE = "C07-is-maximal-directed-2-cycle"
+KF_WHAT = {KF_2CYCLE: "is_maximal answers False on a graph with a directed 2-cycle (u -> v and v -> u) in which every "
+                      "non-adjacent pair is m-separable: inducing_path's triple-based collider test treats the pair as "
+                      "an arrowhead at both ends"}
+
+
+def has_two_cycle(g):
+    D = set(map(tuple, g["D"]))
+    return any((b, a) in D for a, b in D)
+
+
 def judge(case, got, ans):
     """-> list of (severity, kind, detail)"""
     g = case["g"]
@@ -61,9 +72,16 @@ def judge(case, got, ans):
                     "non-adjacent pair m-separable by some subset; no undirected edge) gives %s" % (got["vm"], d_vm)))
     elif got["vm"] != m_vm:
         res.append(("corr", "valid_mag-model", "model=%s decider=%s" % (m_vm, d_vm)))
-    if not g["U"] and cyc == "F":          # quantifier of the is_maximal clause: (acyclic) ADMG over directed/bidirected edges
+    if not g["U"]:      # quantifier of the is_maximal clause: directed/bidirected edges (cyclic graphs included:
+        # path-level m-separation is defined there and C07.maximalDec_iff has no acyclicity hypothesis)
         if got["im"] != d_im:
-            res.append(("violation", "is_maximal", "is_maximal=%s but enumerating all separating sets gives %s" % (got["im"], d_im)))
+            if has_two_cycle(g) and got["im"] == "F" and d_im == "T" and m_im == "F":
+                # recorded finding: with a directed 2-cycle u -> v, v -> u the triple-based collider test of
+                # inducing_path reads the pair as an arrowhead at both ends (no single edge has that), so a
+                # non-existent inducing path is found; the literal model does the same (its theorem excludes 2-cycles)
+                res.append(("known", KF_2CYCLE, "is_maximal=F, all-subsets decider T, literal model F, graph has a directed 2-cycle"))
+            else:
+                res.append(("violation", "is_maximal", "is_maximal=%s but enumerating all separating sets gives %s" % (got["im"], d_im)))
         elif got["im"] != m_im:
             res.append(("corr", "is_maximal-model", "model=%s decider=%s" % (m_im, d_im)))
     # has_adc is a helper; the property only needs: True => not ancestral, and on pairs with one edge False => ancestral
@@ -209,7 +227,7 @@ def fails(case, drv, kind):
     if any(a == b for k in "DBU" for a, b in g[k]):
         return False
     got = impl(case)
-    return any(v[0] == "violation" and v[1] == kind for v in judge(case, got, drv.ask(line(case))))
+    return any(v[0] in ("violation", "known") and (v[1] == kind or v[0] == "known") for v in judge(case, got, drv.ask(line(case))))
 
 
 def run(ctx):
@@ -223,8 +241,8 @@ def run(ctx):
                "non-trivial = the graph passes the first three tests (no undirected edge, simple, acyclic, ancestral) and has a "
                "non-adjacent pair, so maximality decides")
     ev.assumptions = ["no self loops", "valid_mag / is_maximal are called with the default L = S = {}",
-                      "is_maximal is compared only on acyclic graphs without undirected edges (its quantifier); on other inputs "
-                      "only model-vs-code", "has_adc is a helper: only the two facts valid_mag relies on are demanded of it"]
+                      "is_maximal is compared with the all-subsets decider on every graph without undirected edges (cyclic "
+                      "ones included); with undirected edges only model-vs-code", "has_adc is a helper: only the two facts valid_mag relies on are demanded of it"]
     bad = []
     corpus = C.load_corpus(PID)
     if corpus:
@@ -240,12 +258,25 @@ def run(ctx):
     ev.extra["exhaustive_part"] = "all graphs on <=3 nodes and all 46656 graphs on 4 nodes over the listed pair states"
     if bad:
         seen = set()
+        kf_known = set()
+        try:
+            import json as _json
+            import os as _os
+            kf_known = set(f["id"] for f in _json.load(open(_os.path.join(C.VERIF, "known_findings.d", PID + ".json")))["findings"]
+                           if f.get("status") == "known")
+        except Exception:
+            pass
         drv = C.Driver()
         try:
             for case, (sev, kind, detail) in bad:
                 if (sev, kind) in seen:
                     continue
                 seen.add((sev, kind))
+                if sev == "known":
+                    if kind in kf_known:
+                        out.known(kind, KF_WHAT[kind], case)
+                        continue
+                    sev, kind = "violation", "is_maximal"
                 if sev == "violation":
                     small = shrink_case(case, lambda c: fails(c, drv, kind))
                     out.violation(small, {"kind": kind, "detail": detail, "impl": impl(small), "lean": drv.ask(line(small)),
